@@ -41,6 +41,7 @@ var Families = map[string]func(t *testing.T, seed int64, steps int) *Cluster{
 	"transferhang": famTransferHang,
 	"notifyshort": famNotifyShort,
 	"fastpathrace": famFastPathRace,
+	"xferisolated": famXferIsolated,
 	"transferstuck": famTransferStuck, // not in any plan: kept as a scenario, the defect it was written for needs a rarer trigger (see DESIGN 7.16)
 }
 
